@@ -184,6 +184,18 @@ CHECKS = {
              'still holds every old listener. Fallback: every outcome sequence over {refused, timeout, success, SOCKS error, '
              'lost after connect} for 9050 then 9150.',
         note='Trusted: mc/simtor.py GETCONF/SETCONF, the FakeReactor connector doubles. SOCKSPort 0 entries are not explored.'),
+    'C16': dict(
+        engine=E2, design='DESIGN.md section 4 / C16',
+        technique='exhaustive enumeration of consensus-document chains (every single relay-level change, twice) on the real '
+                  'TorState, compared after every document with an independent parser of the same bytes',
+        text='A pool of 5 relay identities (two sharing a nickname, one first seen in a circuit path); 6 starting documents '
+             'delivered as the ns/all answer during bootstrap, then every single relay-level change (join, join as guard with '
+             'IPv6, leave, other flag sets, 0/1/2 "a" lines, dropping/restoring "w" and "p", rename creating/resolving a '
+             'nickname clash, re-address) delivered as NEWCONSENSUS, then every single change again (thorough: a third step); '
+             'every document over <= 3 relays x variants through both delivery paths; identity codec round trip and '
+             'injectivity on 5122 values. Oracle: relay indexes, per-relay attributes, lookups by identity and nickname, '
+             'guards/authorities, object identity across documents.',
+        note='Trusted: refs/consensus.py. Known finding: authorities is keyed by nickname.'),
 }
 
 PENDING = {}
